@@ -36,7 +36,7 @@ ESCAPABLE = list('*_`[]()#<>\\!&"\'-+.')
 ENTITIES = [('&amp;', '&'), ('&lt;', '<'), ('&gt;', '>'), ('&quot;', '"'), ('&copy;', '©'), ('&#35;', '#'), ('&#x22;', '"'),
             ('&ouml;', 'ö'), ('&#42;', '*'), ('&nbsp;', '\u00a0')]
 INFOS = ['', '', 'py', 'c++ extra', 'sh', 'x-y', 'a&amp;b', 'lang\\*']
-CODE_LINES = ['x = 1', '  indented', '', '*not em*', '<b>', '> q', '- l', '    four', '# h', 'a & b', '```', '~~~', '1. x', '[a]: b',
+CODE_LINES = ['x = 1', '  indented', '', '*not em*', '<b>', '> q', '- l', '    four', '# h', 'a & b', '```', '~~~', '    ```', '    ~~~~~~', '1. x', '[a]: b',
               '| a |', '***', 'tail  ', '\\', '&amp;']
 HTML_BLOCKS = [
     (6, ['<div>', 'text *x*', '</div>']), (2, ['<!-- c', '', 'more -->']), (1, ['<pre>', '  a', '', 'b', '</pre>']),
